@@ -35,6 +35,13 @@ func selftest(x *mon.Ctx) {
 	if err := bugModelSelfTest(); err != nil {
 		x.HarnessError("%v", err)
 	}
+	batch := 0
+	if b, err := sm4.NewCipher(make([]byte, 16)); err == nil {
+		if cb, ok := b.(concB); ok {
+			batch = cb.Concurrency() * 16
+		}
+	}
+	x.Note("batched path: the library's block offers batches of %d bytes (0 = no batch interface in this configuration; emulated block by block with batches of %d bytes)", batch, loopBatch*16)
 }
 
 // ---------------------------------------------------------------------------
@@ -446,21 +453,37 @@ func side(hi bool) string {
 	return "lo"
 }
 
-// judge compares the library's output with the reference. A mismatch is a
-// violation unless it is exactly what the bug model of an open finding predicts.
-func judge(c *mon.Case, what string, s spec, path string, m *material, src, got, want []byte) bool {
-	c.Event("compare/"+path, 1)
+// call describes one observed library call for the judge.
+type call struct {
+	s    spec
+	path string
+	m    *material
+}
+
+// verdicts of judge
+const (
+	vOK = iota
+	vKnownInvertible // open finding whose defective map is still a permutation (the round trip stays demanded)
+	vFail
+)
+
+// judge compares the library's output got for src = data[lo:hi] with the
+// reference output want. A mismatch is a violation unless it is exactly what
+// the bug model of an open finding predicts for this class of call. data is the
+// whole message of a history (one-shot calls: lo = 0, hi = len(data)).
+func judge(c *mon.Case, what string, k call, data []byte, lo, hi int, got, want []byte) int {
+	c.Event("compare/"+k.path, 1)
 	if bytes.Equal(got, want) {
-		return true
+		return vOK
 	}
+	s, m, src := k.s, k.m, data[lo:hi]
 	if s.mode == "hctr" && hctrBugPredicate(len(src)) {
 		c.Event("hctr_mismatch_in_known_class", 1)
-		model := hctrBugModel(m.key, m.iv, m.key2, src, s.dir == "dec")
-		if bytes.Equal(got, model) {
+		if bytes.Equal(got, hctrBugModel(m.key, m.iv, m.key2, src, s.dir == "dec")) {
 			c.Event("known/hctr-tail-tweak", 1)
 			c.Known("hctr-tail-tweak", "mismatch", "%s: HCTR %s of %d bytes ((len-16) mod 16 = %d) differs from the definition and equals the model in which the last hash block is built from tweak[r:] (cipher/hctr.go uhash)",
 				what, s.dir, len(src), (len(src)-16)%16)
-			return false
+			return vKnownInvertible
 		}
 	}
 	off := 0
@@ -473,12 +496,16 @@ func judge(c *mon.Case, what string, s spec, path string, m *material, src, got,
 	if m.useSector {
 		c.Detail("sector", m.sector)
 	}
+	if lo != 0 || hi != len(data) {
+		c.Detail("message", data)
+		c.Detail("call_range", fmt.Sprintf("%d..%d", lo, hi))
+	}
 	c.Detail("src", src)
 	c.Detail("got", got)
 	c.Detail("want", want)
-	c.Fail("mismatch", "%s: %s path, %d bytes: output differs from the definition, first difference at byte %d (block %d): got %x want %x",
-		what, path, len(src), off, off/16, clip(got, off), clip(want, off))
-	return false
+	c.Fail("mismatch", "%s: %s path, %d bytes: output differs from the definition, first difference at byte %d of the call (block %d): got %x want %x",
+		what, k.path, len(src), off, off/16, clip(got, off), clip(want, off))
+	return vFail
 }
 
 func clip(b []byte, off int) []byte {
